@@ -51,6 +51,7 @@ type txnRun struct {
 	srcs    []*tsrc
 	pool    [][2]string
 	managed []int
+	quiet   bool
 
 	mu       sync.Mutex
 	outI     []string
@@ -139,6 +140,12 @@ func (t *txnRun) obsSrc(s *tsrc, sorted bool) string {
 	}
 	l := guard(func() string { return strconv.Itoa(s.txn.Len()) })
 	a := guard(func() string {
+		if t.quiet {
+			// Txn.Iter on a write transaction takes a snapshot, which resets the writable cache and would hide aliasing
+			// through it: quiet cases observe open transactions through Len and Has only
+			_ = s.txn.Len()
+			return "-"
+		}
 		var items []string
 		for m, r := range s.txn.Iter().All() {
 			items = append(items, entry(m, r))
@@ -476,6 +483,10 @@ func runTxn(fields []string) string {
 		return "I=new-failed"
 	}
 	t := &txnRun{f: f, steps: strings.Split(fields[1], ";")}
+	if strings.HasPrefix(fields[2], "q!") {
+		t.quiet = true
+		fields[2] = fields[2][2:]
+	}
 	for _, e := range strings.Split(fields[2], "+") {
 		if mp := strings.SplitN(e, ":", 2); len(mp) == 2 {
 			t.pool = append(t.pool, [2]string{mp[0], unhx(mp[1])})
@@ -639,8 +650,9 @@ func genTxn(r *Rng, tier string, n int, emit func(string)) {
 		hostPct := Pick(g.r, []int{0, 0, 0, 40})
 		np := 3 + g.r.Intn(6)
 		var poolStr []string
+		nested := genNestedPool(g.r, np, hostPct)
 		for i := 0; i < np; i++ {
-			p := genPattern(g.r, hostPct)
+			p := nested[i]
 			m := Pick(g.r, g.methods)
 			g.pool = append(g.pool, [2]string{m, p})
 			g.pats = append(g.pats, p)
@@ -649,6 +661,47 @@ func genTxn(r *Rng, tier string, n int, emit func(string)) {
 		// some committed routes to start from
 		for i := g.r.Intn(4); i > 0; i-- {
 			g.ops = append(g.ops, g.writeStep("-"))
+		}
+		if g.r.Chance(20) {
+			// directed scenario: replace a committed route that has committed routes below it, then write below it in the
+			// same transaction, observe the router, end the transaction either way, observe again
+			m := g.methods[0]
+			base := strings.TrimSuffix(genPathPattern(g.r), "/")
+			if strings.Contains(base[strings.LastIndexByte(base, '/'):], "*{") {
+				base = "/" + Pick(g.r, staticSegs)
+			}
+			kids := []string{base + "/" + Pick(g.r, staticSegs), base + "/{k}", base + "/" + Pick(g.r, staticSegs) + "/" + Pick(g.r, staticSegs)}
+			all := append([]string{base}, kids...)
+			for _, q := range all {
+				g.pool = append(g.pool, [2]string{m, q})
+				g.pats = append(g.pats, q)
+				poolStr = append(poolStr, m+":"+hx(q))
+			}
+			for _, q := range all[:2+g.r.Intn(3)] {
+				g.hid++
+				g.ops = append(g.ops, fmt.Sprintf("H,-,%s,%s,0,%d", m, hx(q), g.hid))
+			}
+			id := g.id()
+			g.ops = append(g.ops, fmt.Sprintf("TXN,w,%d", id))
+			g.open = append(g.open, id)
+			g.writers = append(g.writers, id)
+			src := strconv.Itoa(id)
+			g.hid++
+			g.ops = append(g.ops, fmt.Sprintf("U,%s,%s,%s,0,%d", src, m, hx(base), g.hid))
+			for i := 1 + g.r.Intn(3); i > 0; i-- {
+				q := Pick(g.r, kids)
+				g.hid++
+				switch g.r.Intn(3) {
+				case 0:
+					g.ops = append(g.ops, fmt.Sprintf("U,%s,%s,%s,0,%d", src, m, hx(q), g.hid))
+				case 1:
+					g.ops = append(g.ops, fmt.Sprintf("H,%s,%s,%s,0,%d", src, m, hx(q), g.hid))
+				default:
+					g.ops = append(g.ops, fmt.Sprintf("D,%s,%s,%s", src, m, hx(q)))
+				}
+				g.ops = append(g.ops, "A,-", fmt.Sprintf("R,-,%s,%s", m, hx(q)), "N,-")
+			}
+			g.ops = append(g.ops, Pick(g.r, []string{"COMMIT", "ABORT", "ABORT"})+","+src, "A,-", "N,-")
 		}
 		rounds := 1 + g.r.Intn(3)
 		for ; rounds > 0; rounds-- {
@@ -731,6 +784,10 @@ func genTxn(r *Rng, tier string, n int, emit func(string)) {
 			}
 		}
 		g.ops = append(g.ops, "N,-", "A,-")
-		emit("txn\t" + strings.Join(g.ops, ";") + "\t" + strings.Join(poolStr, "+"))
+		q := ""
+		if g.r.Chance(50) {
+			q = "q!"
+		}
+		emit("txn\t" + strings.Join(g.ops, ";") + "\t" + q + strings.Join(poolStr, "+"))
 	}
 }
